@@ -43,6 +43,8 @@ pub struct Profile {
     pub skeleton_pct: u32,
     /// percent of plans that contain the map_ref disconnect / reconnect skeleton
     pub mapref_skeleton_pct: u32,
+    /// percent of plans that contain the skeleton of a bind over a pre-existing right-hand side
+    pub outer_rhs_skeleton_pct: u32,
 }
 
 impl Profile {
@@ -80,6 +82,7 @@ impl Profile {
             big_pct: 0,
             skeleton_pct: 15,
             mapref_skeleton_pct: 4,
+            outer_rhs_skeleton_pct: 4,
         }
     }
 }
@@ -409,6 +412,87 @@ impl<'a> G<'a> {
     }
 }
 
+/// A bind whose right-hand side is a node that exists outside it, in two variants.
+/// (a) The bind and its dependant are disconnected while the outer node stays observed; the
+/// outer node's value moves away and back; the dependant is re-observed: nothing changed for it.
+/// (b) The bind switches from the outer node (which nothing else needs) to a node that is
+/// already invalid; then everything is unobserved and the outer node's input is written: the
+/// outer node is no longer anybody's business.
+fn skeleton_outer_rhs(g: &mut G, actions: &mut Vec<Action>) {
+    const LAST: usize = usize::MAX;
+    const LAST_BIND: usize = usize::MAX - 1;
+    let variant_b = g.r.chance(1, 2);
+    if variant_b {
+        // an invalid node the driver still holds: the exported node of a bind that re-ran
+        actions.push(Action::NewVar { init: 0 });
+        let f = g.f2();
+        let body = BodySpec { alts: vec![BodyExpr::Map(Box::new(BodyExpr::Const(1)), f)], outers: vec![], export: true, temp: false, side: None, via: 0, fx: vec![] };
+        actions.push(Action::NewBind { lhs: LAST, body });
+        actions.push(Action::Observe { node: LAST_BIND, pool: Pool::I });
+        actions.push(Action::Stabilise);
+        actions.push(Action::Write { var: LAST, op: WriteOp::Update(F1::Inc) });
+        actions.push(Action::Stabilise);
+        g.ni += 3;
+        g.nvars += 1;
+        g.nobs += 1;
+    }
+    let init = g.val();
+    actions.push(Action::NewVar { init });
+    let f = g.f1();
+    actions.push(Action::NewMap { src: LAST, f, fx: vec![], via: 0 });
+    if !variant_b {
+        actions.push(Action::Observe { node: LAST, pool: Pool::I });
+        g.nobs += 1;
+    }
+    actions.push(Action::NewVar { init: 0 });
+    let body = BodySpec {
+        alts: vec![BodyExpr::Outer(0), BodyExpr::Outer(1)],
+        outers: vec![OuterSel::Recent(1), if variant_b { OuterSel::Invalid(g.idx()) } else { OuterSel::Recent(1) }],
+        export: false,
+        temp: false,
+        side: None,
+        via: 0,
+        fx: vec![],
+    };
+    actions.push(Action::NewBind { lhs: LAST, body });
+    g.ni += 4;
+    g.nvars += 2;
+    if variant_b {
+        actions.push(Action::Observe { node: LAST_BIND, pool: Pool::I });
+        g.nobs += 1;
+        actions.push(Action::Stabilise);
+        actions.push(Action::Write { var: LAST, op: WriteOp::Set(1) });
+        actions.push(Action::Stabilise);
+        actions.push(Action::DropObs { obs: LAST, clone: 0 });
+        if g.r.chance(1, 2) {
+            actions.push(Action::Stabilise);
+        }
+        actions.push(Action::Write { var: LAST - 1, op: WriteOp::Update(F1::Inc) });
+        actions.push(Action::Stabilise);
+        actions.push(Action::Write { var: LAST - 1, op: WriteOp::Update(F1::Inc) });
+        actions.push(Action::Stabilise);
+    } else {
+        let fd = g.f1();
+        actions.push(Action::NewMap { src: LAST_BIND, f: fd, fx: vec![], via: 0 });
+        g.ni += 1;
+        actions.push(Action::Observe { node: LAST, pool: Pool::I });
+        g.nobs += 1;
+        actions.push(Action::Stabilise);
+        actions.push(Action::DropObs { obs: LAST, clone: 0 });
+        actions.push(Action::Stabilise);
+        let other = g.val();
+        actions.push(Action::Write { var: LAST - 1, op: WriteOp::Set(other) });
+        actions.push(Action::Stabilise);
+        actions.push(Action::Write { var: LAST - 1, op: WriteOp::Set(init) });
+        if g.r.chance(1, 2) {
+            actions.push(Action::Stabilise);
+        }
+        actions.push(Action::Observe { node: LAST, pool: Pool::I });
+        g.nobs += 1;
+        actions.push(Action::Stabilise);
+    }
+}
+
 /// A projection (`map_ref`) of a pair variable with a consumer: the consumer is disconnected
 /// while the variable stays observed, the variable is written, the consumer is re-observed and
 /// the variable written again before the next stabilise.
@@ -547,7 +631,16 @@ pub fn gen_plan(seed: u64, p: &Profile) -> Plan {
     let mut skeleton_done = false;
     let mapref_at = if g.r.chance(p.mapref_skeleton_pct, 100) { Some(actions.len() + g.r.below(n_actions.max(actions.len() + 1) - actions.len())) } else { None };
     let mut mapref_done = false;
+    let outer_rhs_at = if g.r.chance(p.outer_rhs_skeleton_pct, 100) { Some(actions.len() + g.r.below(n_actions.max(actions.len() + 1) - actions.len())) } else { None };
+    let mut outer_rhs_done = false;
     while actions.len() < n_actions {
+        if let Some(at) = outer_rhs_at {
+            if !outer_rhs_done && actions.len() >= at {
+                outer_rhs_done = true;
+                skeleton_outer_rhs(&mut g, &mut actions);
+                continue;
+            }
+        }
         if let Some(at) = mapref_at {
             if !mapref_done && actions.len() >= at {
                 mapref_done = true;
